@@ -96,9 +96,10 @@ Definition set_comp (c : option (list (N * N))) (m : modl) : modl :=
   mkMod (m_name m) (m_rev m) (m_impl m) (m_latest m) (m_lsearch m) (m_imprev m) (m_limpclb m) (m_feats m) (m_imps m)
         (m_cfault m) (m_tc m) c (m_single m) (m_hasdep m).
 
-(* what happened during one operation: ctx->change_count++ of lys_parse_in, and lys_compile of a module
-   (also change_count++; the compiled tree of that module is a new object afterwards) *)
-Inductive event := EvAdd | EvCompile (k : key).
+(* what happened during one operation: ctx->change_count++ of lys_parse_in, lys_compile of a module (also
+   change_count++; the compiled tree of that module is a new object afterwards), and change_count++ of
+   _lys_set_implemented (features of an implemented module changed) / lys_implement (module became implemented) *)
+Inductive event := EvAdd | EvCompile (k : key) | EvChange.
 
 Record state := mkState {
   mods : list modl;            (* ctx->list, in order *)
@@ -378,7 +379,7 @@ Definition set_implemented (s : state) (k : key) (sel : fsel) : state * bool :=
         match set_features (m_feats m) sel with
         | SfInval => (s, false)
         | SfExist => (s, true)
-        | SfOk fs => (upd_s k (fun m => set_tc true (set_feats fs m)) s, true)
+        | SfOk fs => (add_ev EvChange (upd_s k (fun m => set_tc true (set_feats fs m)) s), true)
         end
       else
         (* lys_implement *)
@@ -389,7 +390,7 @@ Definition set_implemented (s : state) (k : key) (sel : fsel) : state * bool :=
             | SfInval => (s, false)
             | r =>
                 let fs := match r with SfOk fs => fs | _ => m_feats m end in
-                let s1 := upd_s k (fun m => set_tc true (set_impl true (set_feats fs m))) s in
+                let s1 := add_ev EvChange (upd_s k (fun m => set_tc true (set_impl true (set_feats fs m))) s) in
                 let s2 := with_implementing (implementing s1 ++ [k]) s1 in
                 let '(s3, _) := has_compiled_import_r (S (length (mods s2))) s2 k in
                 (s3, true)
@@ -702,14 +703,11 @@ Definition omod_of (m : modl) : omod :=
 (* module names that are queried *)
 Definition names : list N := [0; 1; 2; 3; 4; 5; 6; 7].
 
-(* ly_ctx_get_modules_hash, abstractly: the list of the hashed fields. As coded the feature iterator index is
-   not reset between modules, so only the features of the first module after the internal ones are hashed. *)
+(* ly_ctx_get_modules_hash, abstractly: the list of the hashed fields (name, revision, enabled features,
+   implemented) of every module after the internal ones (as of /repo commit c8adb05; before it the feature
+   iterator index was not reset and only the first module's features were hashed) *)
 Definition hash_fields (s : state) : list (N * N * list N * bool) :=
-  match user_mods s with
-  | [] => []
-  | m :: r => (m_name m, m_rev m, enabled_names (m_feats m), m_impl m)
-              :: map (fun m => (m_name m, m_rev m, [], m_impl m)) r
-  end.
+  map (fun m => (m_name m, m_rev m, enabled_names (m_feats m), m_impl m)) (user_mods s).
 
 Definition obs (s : state)
   : list omod * list (option N) * list (option N) * list (N * N * list N * bool) :=
@@ -720,7 +718,7 @@ Definition obs (s : state)
 
 (* compiled trees that are new objects after the operation *)
 Definition compiled_in (s : state) : list key :=
-  concat (map (fun e => match e with EvCompile k => [k] | EvAdd => [] end) (evs s)).
+  concat (map (fun e => match e with EvCompile k => [k] | _ => [] end) (evs s)).
 
 (* ly_ctx_get_change_count (uint16_t) after the operation *)
 Definition change_count_after (cc : N) (s : state) : N := (cc + N.of_nat (length (evs s))) mod 65536.
@@ -728,3 +726,66 @@ Definition change_count_after (cc : N) (s : state) : N := (cc + N.of_nat (length
 (* the context with its change counter *)
 Definition cstep (R : repo) (c : state * N) (o : op) : (state * N) * result :=
   let '(s', r) := step R (fst c) o in ((s', change_count_after (snd c) s'), r).
+
+(* ------------------------------------------------------------------------------------------------ *)
+(* executable side conditions of the theorems (proofs about them: ContextP.v)                       *)
+(* ------------------------------------------------------------------------------------------------ *)
+Definition keys (l : list modl) : list key := map mkey l.
+
+Fixpoint pairs_eqb (a b : list (N * N)) : bool :=
+  match a, b with
+  | [], [] => true
+  | (x1, x2) :: a', (y1, y2) :: b' => (x1 =? y1) && (x2 =? y2) && pairs_eqb a' b'
+  | _, _ => false
+  end.
+
+Definition comp_eqb (a b : option (list (N * N))) : bool :=
+  match a, b with
+  | None, None => true
+  | Some x, Some y => pairs_eqb x y
+  | _, _ => false
+  end.
+
+Definition feat_eqb (f g : feat) : bool :=
+  (f_name f =? f_name g) && beq_bytes (f_deps f) (f_deps g) && Bool.eqb (f_on f) (f_on g).
+
+Fixpoint feats_eqb (a b : list feat) : bool :=
+  match a, b with
+  | [], [] => true
+  | x :: a', y :: b' => feat_eqb x y && feats_eqb a' b'
+  | _, _ => false
+  end.
+
+Fixpoint nodupb (l : list key) : bool :=
+  match l with [] => true | x :: r => negb (kmem x r) && nodupb r end.
+
+(* a list key under a disabled if-feature *)
+Definition key_fault (m : modl) : bool := (m_cfault m =? 5) && negb (first_feat_on (m_feats m)).
+(* the module passes lys_check_features and compiles *)
+Definition compiles_ok (m : modl) : bool :=
+  check_features (m_feats m) && negb (node_fault m) && negb (leafref_fault m) && negb (key_fault m).
+
+(* no to_compile mark, imports are modules of the context, implemented = compiled against the current features
+   (and it would compile again), not implemented = no compiled tree *)
+Definition mod_ok (l : list modl) (m : modl) : bool :=
+  negb (m_tc m) && forallb (fun k => kmem k (keys l)) (m_imps m) &&
+  (if m_impl m then comp_eqb (m_comp m) (Some (snapshot l m)) && compiles_ok m
+   else comp_eqb (m_comp m) None).
+
+Definition is_nil {A} (l : list A) : bool := match l with [] => true | _ => false end.
+
+(* nothing pending: what every state of a context without LY_CTX_EXPLICIT_COMPILE looks like between two calls
+   unless one of the defects struck, and a context with explicit compilation right after ly_ctx_compile() *)
+Definition quiescent (s : state) : bool :=
+  nodupb (keys (mods s)) && forallb (mod_ok (mods s)) (mods s) && is_nil (creating s) && is_nil (implementing s).
+
+(* the hypotheses about the failing operation: at the point where it jumps to its cleanup, every module that
+   existed before still has its LYS_MOD_LATEST_REV bit / its feature bits *)
+Definition keeps (p : modl -> modl -> bool) (R : repo) (s : state) (o : op) : bool :=
+  forallb (fun m => match find_mod (mkey m) (mods (step_mid R s o)) with
+                    | Some m' => p m m'
+                    | None => false
+                    end) (mods s).
+Definition keeps_latest : repo -> state -> op -> bool := keeps (fun m m' => Bool.eqb (m_latest m') (m_latest m)).
+Definition keeps_features : repo -> state -> op -> bool := keeps (fun m m' => feats_eqb (m_feats m') (m_feats m)).
+
